@@ -561,8 +561,9 @@ let spec_line ?(key = 0) (u : unit_case) : string =
   (* the cloned-cursor walk: every top-level entry; everything, and the sub-forest selected by `key`
      (Spec/ForestSel.v) *)
   let walk_one sel = join ";" (List.map show_odt (ForestSel.sel_list u.codes sel BinNums.Z0 hl big_nat u.forest)) in
-  let walk_s = walk_one sel_all ^ "|" ^ walk_one (sel_of_key key) in
-  if walk_one sel_all <> join ";" (List.map show_odt pre) then failwith "s_c02: sel_all is not the preorder";
+  let walk_all = walk_one sel_all in
+  let walk_s = walk_all ^ "|" ^ walk_one (sel_of_key key) in
+  if walk_all <> join ";" (List.map show_odt pre) then failwith "s_c02: sel_all is not the preorder";
   let tree_s = match u.forest with
     | t :: _ -> join ";" (List.map show_die (pre_tree u.codes BinNums.Z0 hl t))
     | [] -> "?" in
@@ -852,8 +853,9 @@ let () =
         (* strategy key: never 0; the on-purpose strategies (1, 2 mod 4) on three quarters of the trap shapes *)
         let key = 1 + rand_int r 1000000 in
         let key = if trap && i mod 16 <> 15 then (key land (lnot 3)) lor (1 + rand_int r 2) else key in
+        let spec = lazy (spec_line ~key u) in      (* does not depend on the build mode *)
         (case_line ~key "c02.forest" u.bigend u.types u.info u.abbrev, fun dbg ->
-          let spec = spec_line ~key u in
+          let spec = Lazy.force spec in
           let m = model_line ~nav:false ~key dbg u.bigend u.types u.info u.abbrev in
           if m = spec then spec else "model-inconsistent " ^ first_diff m spec)));
 
